@@ -600,8 +600,10 @@ def selftest():
 
 def jobs(tier, seed):
     q = tier == 'quick'
-    plan = [('program', 7, 500 if q else 7000), ('closure', 2, 1500 if q else 15000), ('expand', 3, 1700 if q else 20000),
-            ('sort', 2, 1500 if q else 15000), ('history', 2, 1200 if q else 12000), ('misuse', 1, 1500 if q else 15000)]
+    # measured cpu per shard (idle core): program 22 ms/example (5 programs), others 2-3 ms/case
+    # quick: longest shard about 30 s cpu (60 s target with margin); thorough: about 10 min
+    plan = [('program', 8, 1300 if q else 28000), ('closure', 2, 4000 if q else 60000), ('expand', 2, 5000 if q else 80000),
+            ('sort', 2, 4000 if q else 60000), ('history', 1, 5500 if q else 80000), ('misuse', 1, 3500 if q else 40000)]
     out = []
     for name, shards, n in plan:
         for i in range(shards):
